@@ -16,6 +16,7 @@ import (
 	"fmt"
 	"os"
 	"os/exec"
+	"strings"
 	"sync"
 	"testing"
 	"unsafe"
@@ -34,6 +35,9 @@ type Case struct {
 	Calls []calls.Call  `json:"calls"`
 	Iso   []int         `json:"isolated"` // indices of calls also evaluated in a fresh process
 	Opts  []lib.Options `json:"-"`
+	// Limit: the package-level AccumulatedCopySizeLimit in force during the whole history
+	// (assigned before the first call; the only way the legacy package takes a limit).
+	Limit int64 `json:"package_copy_limit,omitempty"`
 }
 
 func draw(pkg string, maxIso int) func(*rapid.T) Case {
@@ -42,6 +46,9 @@ func draw(pkg string, maxIso int) func(*rapid.T) Case {
 		opts := calls.DrawOptionSets(t)
 		n := gen.Uniform(t, 4, 40, "ncalls")
 		c := Case{Pkg: pkg, Bufs: pool.Bufs}
+		if gen.OneIn(t, 4, "pkglimit") {
+			c.Limit = rapid.SampledFrom([]int64{8, 30, 60, 150, -1}).Draw(t, "pkglimitv")
+		}
 		for i := 0; i < n; i++ {
 			c.Calls = append(c.Calls, calls.DrawCallGC(t, pool, opts))
 		}
@@ -56,6 +63,7 @@ func draw(pkg string, maxIso int) func(*rapid.T) Case {
 // ---------- the isolated-process oracle ----------
 
 type isoReq struct {
+	Limit int64       `json:"package_copy_limit,omitempty"`
 	Pkg  string       `json:"package"`
 	Call calls.Call   `json:"call"`
 	Bufs []calls.Text `json:"buffers"` // only A and B are filled in
@@ -65,12 +73,12 @@ var isoCache sync.Map // signature -> calls.Result
 
 // isolated performs call c as the only call of a fresh process (this test
 // binary re-executed with VERIF_C09_EVAL set) and returns its result.
-func isolated(pkg string, c calls.Call, bufs []calls.Text) (calls.Result, error) {
-	key := pkg + "\x00" + c.Sig(bufs)
+func isolated(pkg string, limit int64, c calls.Call, bufs []calls.Text) (calls.Result, error) {
+	key := fmt.Sprintf("%s\x00%d\x00%s", pkg, limit, c.Sig(bufs))
 	if r, ok := isoCache.Load(key); ok {
 		return r.(calls.Result), nil
 	}
-	req := isoReq{Pkg: pkg, Call: c, Bufs: make([]calls.Text, len(bufs))}
+	req := isoReq{Pkg: pkg, Limit: limit, Call: c, Bufs: make([]calls.Text, len(bufs))}
 	req.Bufs[c.A], req.Bufs[c.B] = bufs[c.A], bufs[c.B]
 	in, _ := json.Marshal(req)
 	cmd := exec.Command(os.Args[0], "-test.run", "^TestEvalCall$", "-test.count", "1")
@@ -106,6 +114,9 @@ func TestEvalCall(t *testing.T) {
 		t.Fatalf("bad request: %v", err)
 	}
 	api := calls.ByName(req.Pkg)
+	if req.Limit != 0 {
+		defer api.Defaults(true, req.Limit)()
+	}
 	c := req.Call
 	var patch any
 	var perr error
@@ -152,6 +163,13 @@ type kept struct {
 	want []byte // its content at the time
 }
 
+// keptErr: an error value a call returned, and what it said then.
+type keptErr struct {
+	call int
+	err  error
+	text string
+}
+
 func check(c Case) ev.Verdict {
 	if len(c.Bufs) == 0 || len(c.Calls) == 0 {
 		return ev.Excluded("empty history")
@@ -162,6 +180,9 @@ func check(c Case) ev.Verdict {
 		}
 	}
 	api := calls.ByName(c.Pkg)
+	if c.Limit != 0 {
+		defer api.Defaults(true, c.Limit)()
+	}
 	big := calls.BigIndexPatches(c.Bufs)
 	bufs := make([]*calls.Buf, len(c.Bufs))
 	for i, b := range c.Bufs {
@@ -173,6 +194,7 @@ func check(c Case) ev.Verdict {
 	memo := map[string]calls.Result{}
 	memoAt := map[string]int{}
 	var outs []kept
+	var errs []keptErr
 	applied := map[int]map[int]bool{} // patch buffer -> documents it was applied to through the shared Patch
 	sawFailure, failThenOK := false, false
 	repeats := 0
@@ -196,6 +218,16 @@ func check(c Case) ev.Verdict {
 		for _, k := range outs {
 			if !bytes.Equal(k.out, k.want) {
 				return fmt.Errorf("after call %d (%s): the bytes returned by call %d changed: now %q, were %q", step, cl.Fn, k.call, k.out, k.want)
+			}
+		}
+		if c.Limit != 0 {
+			if n, l := api.ReadDefaults(); !n || l != c.Limit {
+				return fmt.Errorf("after call %d (%s): the package-level defaults were rewritten: SupportNegativeIndices=%v AccumulatedCopySizeLimit=%d, assigned true and %d", step, cl.Fn, n, l, c.Limit)
+			}
+		}
+		for _, k := range errs {
+			if now := k.err.Error(); now != k.text {
+				return fmt.Errorf("after call %d (%s): the error value returned by call %d changed what it says: now %q, was %q", step, cl.Fn, k.call, now, k.text)
 			}
 		}
 		return nil
@@ -250,6 +282,9 @@ func check(c Case) ev.Verdict {
 			}
 			outs = append(outs, kept{step, lib, append([]byte{}, lib...)})
 		}
+		if r.ErrVal != nil && len(errs) < 64 {
+			errs = append(errs, keptErr{step, r.ErrVal, r.Err})
+		}
 		if err := invariants(step, cl); err != nil {
 			return r, err
 		}
@@ -298,7 +333,7 @@ func check(c Case) ev.Verdict {
 		if cl.Skips(big) {
 			continue
 		}
-		want, err := isolated(c.Pkg, cl, c.Bufs)
+		want, err := isolated(c.Pkg, c.Limit, cl, c.Bufs)
 		if err != nil {
 			return ev.Excluded("isolated evaluation unavailable: " + err.Error())
 		}
@@ -323,13 +358,25 @@ func check(c Case) ev.Verdict {
 	if len(c.Iso) > 0 {
 		v.Classes = append(v.Classes, "with-isolated-oracle")
 	}
+	if c.Limit != 0 {
+		v.Classes = append(v.Classes, "package-copy-limit-in-force")
+		n := 0
+		for _, k := range errs {
+			if strings.Contains(k.text, "exceeding the limit") {
+				n++
+			}
+		}
+		if n >= 2 {
+			v.Classes = append(v.Classes, "two-calls-stopped-by-the-copy-limit")
+		}
+	}
 	if repeats > len(c.Calls) {
 		v.Classes = append(v.Classes, "signature-repeated-in-forward-pass")
 	}
 	return v
 }
 
-const rule = "history = pool of 4-11 input buffers (documents that are spellings/mutations of one another, RFC 6902 patches drawn state-aware against them, merge patches, malformed texts; each allocated with 24 sentinel bytes of spare capacity) x 4-40 calls drawn from DecodePatch, Apply, ApplyIndent, ApplyWithOptions, ApplyIndentWithOptions, operation accessors, MergePatch, MergeMergePatches, CreateMergePatch, Equal (and, one step in 25, two garbage collections, which empty the codec's pools) with arguments mostly in role and sometimes any buffer in any role; one Patch value per patch buffer is decoded once and reused (1 call in 5 decodes afresh); every byte slice a call returns is overwritten by the harness right away (the caller owns it; slices that alias an input buffer are left alone) and must stay as overwritten; the history is run forwards and then again in reverse order; up to 3 (v5) / 2 (legacy) calls are also evaluated as the only call of a fresh process; non-trivial = one shared Patch value was applied successfully to >=2 different documents and a failing call (error, or Equal=false) precedes a successful one; distinct = distinct serialised history"
+const rule = "history = pool of 4-11 input buffers (documents that are spellings/mutations of one another, RFC 6902 patches drawn state-aware against them, merge patches, malformed texts; each allocated with 24 sentinel bytes of spare capacity) x 4-40 calls drawn from DecodePatch, Apply, ApplyIndent, ApplyWithOptions, ApplyIndentWithOptions, operation accessors, MergePatch, MergeMergePatches, CreateMergePatch, Equal (and, one step in 25, two garbage collections, which empty the codec's pools) with arguments mostly in role and sometimes any buffer in any role; one Patch value per patch buffer is decoded once and reused (1 call in 5 decodes afresh); every byte slice a call returns is overwritten by the harness right away (the caller owns it; slices that alias an input buffer are left alone) and must stay as overwritten; every error value a call returns is kept and must say the same after every later call; one history in four runs under a package-level AccumulatedCopySizeLimit (8-150 or -1; also in the isolated process), which the library must leave as assigned; one pool in twelve holds a document nested 1 100 / 2 100 levels; the history is run forwards and then again in reverse order; up to 3 (v5) / 2 (legacy) calls are also evaluated as the only call of a fresh process; non-trivial = one shared Patch value was applied successfully to >=2 different documents and a failing call (error, or Equal=false) precedes a successful one; distinct = distinct serialised history"
 
 var unitV5 = ev.Unit[Case]{Name: "history-v5", Rule: rule, Draw: draw("v5", 3), Check: check}
 var unitLegacy = ev.Unit[Case]{Name: "history-legacy", Rule: rule, Draw: draw("legacy", 2), Check: check}
